@@ -13,12 +13,12 @@ from . import c05, c09
 RULE = ("Generated: 48-byte identity hashes (boundary integers incl. values >= q, the all-zero hash), master scalars from the boundary "
         "mixture installed through masterkey_unmarshal (so values >= r and >= 2^255 occur) or produced by setup from a random stream, "
         "parameters P = t*G2 in any Jacobian representative with sP = [s]P, output lengths from {0,1,16,32,255}, random streams for "
-        "encryption; negatives: another identity, another master key, the ciphertext shifted by the generator. Oracle: the recorded "
+        "encryption; negatives: another identity, another master key, the ciphertext shifted by the generator. Oracle: master scalar of setup == the exponent drawn from the stream, ciphertext == [r]P for the drawn r; the recorded "
         "hash_fill inputs of encrypt and decrypt are byte-identical and equal compressed(Q_id) || compressed(rP) || bytes(e(sk, rP)) "
         "assembled from the library's public outputs with the pairing evaluated by the library (C01) and, on a drawn subset, by the "
         "reference; sk == [s mod r] Q_id by the reference; symmetric outputs equal and exactly the requested length is written; negatives "
         "give different hashed bytes. Non-trivial = s >= r, or hash >= q / zero, or output length 0/255, or a negative probe.")
-ASSUMPTIONS = ["reference group law; library pairing as decided by C01", "hash_fill is the recording callback of the shim (deterministic function of its input)"]
+ASSUMPTIONS = ["the exponent a randomised step uses is the one PowersOfX::random (decided by C07/C10) draws first from the same stream", "reference group law; library pairing as decided by C01", "hash_fill is the recording callback of the shim (deterministic function of its input)"]
 
 R, Q = F.R_ORDER, F.Q
 
